@@ -9,8 +9,10 @@ and `loadRecords(db)` (unit `storage`) succeed, and whether the re-marking loop 
 Every answer is a FUNCTION OF THE ARGUMENTS of the call, so that the model says which argument goes where.
 
 Trusted pure facts: `net.IP(nil).To4()` is nil (an address that does not parse has no IPv4 form);
-`d.Round(time.Second)` of a non-negative duration is `keptLease d` of Model/Range.lean (half a second rounds up; Go
-rounds a negative half away from zero and saturates on overflow — `keptLease` does neither).
+`d.Round(time.Second)` is `goRoundSecond d` below: halves round AWAY FROM ZERO, so for d ≥ 0 it is `keptLease d` of
+Model/Range.lean and for d < 0 its mirror image.  (Go saturates when the rounding overflows int64 — such a value and
+the unbounded one of the model are both far above the largest lease accepted, so both are refused.)
+`math.MaxUint32*time.Second` = 4294967295 s = 4294967295000000000 ns.
 -/
 import CoreDhcp.Model.Range
 namespace CoreDhcp
@@ -30,6 +32,8 @@ inductive Err
   | allocator
   /-- `time.ParseDuration(args[3])` returned an error -/
   | badDuration
+  /-- the rounded lease time is negative or more than 2^32 − 1 seconds (since the repair of D21) -/
+  | leaseOutOfRange
   /-- `p.registerBackingDB(args[0])` returned an error -/
   | storage
   /-- `loadRecords(p.leasedb)` returned an error -/
@@ -73,8 +77,37 @@ deriving DecidableEq, Repr
 
 def fail (e : Err) : Out := ⟨none, some e⟩
 
+/-- `d.Round(time.Second)`: to the nearest whole second, halves away from zero (`time.Duration.Round`) -/
+def goRoundSecond (d : Int) : Int := if d < 0 then -(keptLease (-d)) else keptLease d
+
+/-- the largest lease time option 51 can carry: `math.MaxUint32*time.Second`, in ns -/
+def maxLease : Int := 4294967295000000000
+
 /-- `setupRange(args...)` -/
 def setup (args : List String) (w : World) : Out :=
+  match args with
+  | file :: a :: b :: d :: _ =>
+    if file = "" then fail .emptyFileName
+    else match w.ip4 a with
+      | none => fail (.notIPv4 1)
+      | some start =>
+        match w.ip4 b with
+        | none => fail (.notIPv4 2)
+        | some stop =>
+          if start.toNat ≥ stop.toNat then fail .badRange
+          else if !w.newAlloc (some start) (some stop) then fail .allocator
+          else match w.duration d with
+            | none => fail .badDuration
+            | some ns =>
+              if goRoundSecond ns < 0 ∨ goRoundSecond ns > 4294967295000000000 then fail .leaseOutOfRange
+              else if !w.register file then fail .storage
+              else if !w.loadOk then fail .load
+              else if !w.remarkOk then fail .remark
+              else ⟨some ⟨file, start, stop, goRoundSecond ns⟩, none⟩
+  | _ => fail .arity
+
+/-- `setupRange` BEFORE the repair of D21 (no test on the lease time): kept for the counter-example -/
+def setupOld (args : List String) (w : World) : Out :=
   match args with
   | file :: a :: b :: d :: _ =>
     if file = "" then fail .emptyFileName
@@ -92,7 +125,7 @@ def setup (args : List String) (w : World) : Out :=
               if !w.register file then fail .storage
               else if !w.loadOk then fail .load
               else if !w.remarkOk then fail .remark
-              else ⟨some ⟨file, start, stop, keptLease ns⟩, none⟩
+              else ⟨some ⟨file, start, stop, goRoundSecond ns⟩, none⟩
   | _ => fail .arity
 
 /-- the tests of `setupRange` in source order, each with the error its failure is reported as (the values a later
@@ -100,6 +133,7 @@ test looks at exist once the earlier ones have passed; `getD` only makes the lis
 def checks (args : List String) (w : World) : List (Bool × Err) :=
   let start := (w.ip4 (args.getD 1 "")).getD 0#32
   let stop := (w.ip4 (args.getD 2 "")).getD 0#32
+  let kept := goRoundSecond ((w.duration (args.getD 3 "")).getD 0)
   [ (decide (args.length < 4), .arity),
     (decide (args.getD 0 "" = ""), .emptyFileName),
     ((w.ip4 (args.getD 1 "")).isNone, .notIPv4 1),
@@ -107,6 +141,7 @@ def checks (args : List String) (w : World) : List (Bool × Err) :=
     (decide (start.toNat ≥ stop.toNat), .badRange),
     (!w.newAlloc (w.ip4 (args.getD 1 "")) (w.ip4 (args.getD 2 "")), .allocator),
     ((w.duration (args.getD 3 "")).isNone, .badDuration),
+    (decide (kept < 0 ∨ kept > 4294967295000000000), .leaseOutOfRange),
     (!w.register (args.getD 0 ""), .storage),
     (!w.loadOk, .load),
     (!w.remarkOk, .remark) ]
